@@ -107,7 +107,9 @@ class Alias:
                 attr_path,
                 instance,
             )
-        except (AttributeError, KeyError) as e:
+        except (AttributeError, KeyError, IndexError, TypeError) as e:
+            # (`TypeError`: a `["key"]` step into something that cannot be
+            # subscripted, such as `None`, has no target either.)
             raise AttributeError(
                 f"`{instance.__class__.__name__}{'' if self.attr.startswith('[') else '.'}{self.attr}` [Caused by: {e}]"
             ) from e
